@@ -170,14 +170,16 @@ def _minmax(e, st, node, *xs):
 
 
 def _reduce_extreme(e, st, node, a, is_max):
-    if a.ndim != 1:
-        raise Unsupported('max/min of n-d array')
     m = e.fresh('max' if is_max else 'min', a.kind)
-    w = e.fresh('w', 'int')
-    e.emit(e.site('nonempty', node), st, a.shape[0] > 0)
-    j = e.L.var('q')
-    st.pc.append(z3.ForAll([j], z3.Implies(z3.And(j >= 0, j < a.shape[0]), (a[j] <= m) if is_max else (a[j] >= m))))
-    st.pc.append(z3.And(w >= 0, w < a.shape[0], a[w] == m))
+    for sdim in a.shape:
+        e.emit(e.site('nonempty', node), st, sdim > 0)
+    js = [e.L.var('q') for _ in a.shape]
+    ws = [e.fresh('w', 'int') for _ in a.shape]
+    rng = z3.And(*[c for j, sdim in zip(js, a.shape) for c in (j >= 0, j < sdim)])
+    cell = a[tuple(js)] if len(js) > 1 else a[js[0]]
+    wcell = a[tuple(ws)] if len(ws) > 1 else a[ws[0]]
+    st.pc.append(z3.ForAll(js, z3.Implies(rng, (cell <= m) if is_max else (cell >= m))))
+    st.pc.append(z3.And(*[c for w, sdim in zip(ws, a.shape) for c in (w >= 0, w < sdim)], wcell == m))
     return m
 
 
